@@ -42,7 +42,10 @@ ManyDash == {foo \o <<SP, LBRACK>> \o n \o <<RBRACK>> : n \in {base \o <<HYPHEN>
             \cup {foo \o <<COLON>> \o eabi \o <<HYPHEN>> \o bGnu \o <<HYPHEN>> \o bLinux \o <<HYPHEN, 97, 114, 109>>,
                   foo \o <<COLON>> \o base \o <<HYPHEN>> \o base \o <<HYPHEN>> \o amd64,
                   <<DOLLAR, LBRACE, 97, CR, CR, LF, 98, RBRACE>>, <<DOLLAR, LBRACE, 97, CR, LF, 98, RBRACE>>, foo \o <<COMMA, SP, DOLLAR, LBRACE, 97, CR, CR, CR, LF, RBRACE>>}
-DepVecs == {[k |-> Kind, text |-> t] : t \in Texts \cup Degenerate \cup Juxta \cup NbspArch \cup ManyDash}
+\* fields that END in the middle of a substvar: a bare `$`, `${`, `${x` - alone, after a name, after a comma, after a bar
+CutSubst == {pre \o cut : pre \in {<<>>, foo \o <<SP>>, foo \o <<COMMA, SP>>, foo \o <<SP, PIPE, SP>>, foo \o <<SP, LPAREN, GT, EQ, SP, 49, RPAREN, COMMA>>},
+                           cut \in {<<DOLLAR>>, <<DOLLAR, LBRACE>>, <<DOLLAR, LBRACE, 120>>, <<DOLLAR, DOLLAR>>, <<DOLLAR, RBRACE>>}}
+DepVecs == {[k |-> Kind, text |-> t] : t \in Texts \cup Degenerate \cup Juxta \cup NbspArch \cup ManyDash \cup CutSubst}
 
 \* ---- architecture names (C05) ------------------------------------------------
 bKf == <<107, 102, 114, 101, 101, 98, 115, 100>>  bMusl == <<109, 117, 115, 108>>
